@@ -111,6 +111,83 @@ fn run_est(c: &EstCase) -> CaseResult {
     }
 }
 
+// ------------------------------------------------------------------------------------------
+// the sample taken by the steady-tick thread while it had to wait for the bar
+
+#[derive(Debug, Clone, Serialize, Deserialize)]
+pub struct StampCase {
+    /// the bar's state is held (inside suspend()) for this long while the ticker wants to draw
+    hold_ms: u16,
+    /// steps made by the closure at the end of that time
+    steps: u16,
+    seed: u64,
+    schedules: u32,
+    pct_depth: Option<u8>,
+}
+
+fn body_stamp(c: &StampCase) {
+    let pb = ProgressBar::with_draw_target(Some(10_000_000), ProgressDrawTarget::hidden());
+    clock::advance(Duration::from_millis(100));
+    pb.enable_steady_tick(Duration::from_secs(3600));
+    let hold = Duration::from_millis(c.hold_ms.max(200) as u64);
+    let steps = c.steps.max(10) as u64;
+    let p2 = pb.clone();
+    // (while a ticker is installed inc() does not touch the bar's state: only the ticker feeds the estimator)
+    pb.suspend(|| {
+        clock::advance(hold);
+        p2.inc(steps);
+    });
+    pb.disable_steady_tick();
+    pb.tick();
+    assert_eq!(pb.position(), steps, "ESTIMATOR: lost position update");
+    let true_rate = steps as f64 / (hold.as_secs_f64() + 0.1);
+    let got = pb.per_sec();
+    assert!(
+        got.is_finite() && (got - true_rate).abs() <= 0.05 * true_rate,
+        "ESTIMATOR: {steps} steps in {:?} since the bar was created (the steady-tick thread may have waited {hold:?} for the bar): per_sec() = {got}, the true rate is {true_rate}",
+        hold + Duration::from_millis(100)
+    );
+}
+
+fn run_stamp(c: &StampCase) -> CaseResult {
+    let case = Arc::new(c.clone());
+    let mut cfg = shuttle::Config::new();
+    cfg.failure_persistence = shuttle::FailurePersistence::None;
+    cfg.max_steps = shuttle::MaxSteps::FailAfter(500_000);
+    let iters = c.schedules.max(1) as usize;
+    let c2 = case.clone();
+    let _clk = clock::Armed::new();
+    let r = catch(move || match c2.pct_depth {
+        Some(d) => shuttle::Runner::new(PctScheduler::new_from_seed(c2.seed, d.clamp(1, 5) as usize, iters), cfg).run({
+            let c3 = c2.clone();
+            move || body_stamp(&c3)
+        }),
+        None => shuttle::Runner::new(RandomScheduler::new_from_seed(c2.seed, iters), cfg).run({
+            let c3 = c2.clone();
+            move || body_stamp(&c3)
+        }),
+    });
+    match r {
+        Ok(_) => {
+            let mut v = Verdict::default();
+            v.nontrivial = true;
+            v.label("ticker_sample_schedules_explored");
+            v.label_if(c.pct_depth.is_some(), "pct_scheduler");
+            Ok(v)
+        }
+        Err(msg) => {
+            let kind = if msg.contains("deadlock") {
+                "deadlock"
+            } else if msg.contains("ESTIMATOR:") {
+                "ticker_sample_misdated"
+            } else {
+                "panic"
+            };
+            Err(Fail::new(kind, format!("{c:?}: {msg}")))
+        }
+    }
+}
+
 pub fn property() -> Property {
     Property {
         id: "C09",
@@ -132,6 +209,22 @@ pub fn property() -> Property {
             run: run_est,
             signature: no_signature,
             essential: &["schedules_explored", "three_updaters", "with_a_ticking_thread", "pct_scheduler"],
+            workers: default_workers(),
+            decode: None,
+        }),
+        Box::new(Gen::<StampCase> {
+            name: "sched_ticker_sample",
+            rule: "a bar with a steady ticker (1 h) whose state is held for 0.2-8 s of virtual time by a suspend() closure that makes 10-5000 steps at the end, under 100 (thorough 1500) random or PCT schedules of main thread and ticker thread; after disable_steady_tick() and one tick() per_sec() is within 5% of steps / time since creation, whether the ticker took its sample before the closure or had to wait for it; non-trivial = every program",
+            strategy: |t| {
+                let schedules = t.pick(100u32, 1500);
+                (200u16..8000, 10u16..5000, any::<u64>(), proptest::option::weighted(0.3, 1u8..4))
+                    .prop_map(move |(hold_ms, steps, seed, pct_depth)| StampCase { hold_ms, steps, seed, schedules, pct_depth })
+                    .boxed()
+            },
+            cases: |t| t.pick(20, 300),
+            run: run_stamp,
+            signature: no_signature,
+            essential: &["ticker_sample_schedules_explored", "pct_scheduler"],
             workers: default_workers(),
             decode: None,
         })],
